@@ -12,7 +12,8 @@ import vlib
 PID = "C13"
 FORMULAS = ["OneWatch", "StopClean.NotCancelled", "StopClean.HandlerLeft", "GcOnlyUnused.NotComposed", "GcOnlyUnused.Referenced",
             "Reestablish", "RunningExact", "GetWatchesCovers", "NoDeadlock", "NoRace"]
-WITNESS = [("MCEngine_witness_d2.cfg", ["StepProps"]), ("MCEngine_witness_d10.cfg", ["OneWatch"]), ("MCEngine_witness_d8.cfg", ["StopClean"])]
+WITNESS = [("MCEngine_witness_d2.cfg", ["StepProps"]), ("MCEngine_witness_d10.cfg", ["OneWatch"]), ("MCEngine_witness_d8.cfg", ["StopClean"]),
+           ("MCEngine_witness_d15.cfg", ["StepProps"])]
 
 
 def regression():
@@ -65,8 +66,8 @@ def race_run(ctx, n):
 
 def run(ctx):
     quick = ctx.quick
-    plan = [("MCEngine_quick.cfg", 14000), ("MCEngine_quick_all.cfg", 8000)] if quick else \
-           [("MCEngine_quick.cfg", 100000), ("MCEngine_quick_all.cfg", 12938), ("MCEngine_thorough.cfg", 250000), ("MCEngine_thorough_b.cfg", 150000)]
+    plan = [("MCEngine_quick.cfg", 14000), ("MCEngine_quick_all.cfg", 8000), ("MCEngine_quick_read.cfg", 4000)] if quick else \
+           [("MCEngine_quick.cfg", 100000), ("MCEngine_quick_all.cfg", 30000), ("MCEngine_quick_read.cfg", 30000), ("MCEngine_thorough.cfg", 250000), ("MCEngine_thorough_b.cfg", 150000)]
     scs, states, trans, emitted, consts = [], 0, 0, 0, {}
     for cfg, n in plan:
         name = cfg[len("MCEngine_"):-4]
